@@ -14,7 +14,9 @@ EXPLANATION = (
     "same predicates and the same mark-carrier order, caches per class object and publishes the entry only after filling it; proxies copy "
     "the member sets they are given; the method gate does not run a property getter before refusing; the reserved dunder table contains the 43 reference names and "
     "is_private_attribute returns False only for public or non-reserved dunder names; expose marks only own, non-private "
-    "members. Not decided: getattr/descriptor behaviour for arbitrary class shapes, unicode look-alikes, non-string names."
+    "members."
+    "Also decided: _get_attribute returns only the looked-up member and no gate can fall off its end; the class-expose loop tests the member's own name for privacy; _reset_exposed_members addresses the cache entry _get_exposed_members wrote; every loadsCall hands object id and member name on exactly as decoded. "
+    "Not decided: getattr/descriptor behaviour for arbitrary class shapes, unicode look-alikes, non-string names."
 )
 
 REFERENCE_RESERVED = {
